@@ -7,6 +7,7 @@ import (
 	"fmt"
 	"go/token"
 	"go/types"
+	"regexp"
 	"sort"
 	"strings"
 
@@ -77,13 +78,19 @@ type Engine struct {
 	goTargets []goTarget
 	strSeen   map[string]bool
 	decEntry  Term
+	curLoopState *State
+	curVisited string
+	siteDeps  map[string][]int
+	exposing  bool
+	noOutside bool
+	needs     map[int][]string // conditional assumptions: included only when one of the symbols occurs in the query
 }
 
 func NewEngine(p *Program, fn *ssa.Function, fc *FuncContract) *Engine {
 	return &Engine{P: p, Fn: fn, FC: fc, FuncID: p.FuncIDOf(fn), declared: map[string]bool{}, reified: map[int]bool{},
 		labels: map[string]*callLabel{}, callOrd: map[string]int{}, kindOrd: map[string]int{}, notes: map[string]bool{},
 		used: map[string]bool{}, strlits: map[string]string{}, siteType: map[int]types.Type{}, params: map[string]Val{},
-		ghost: map[string]Term{}, safetyOn: true, loopPre: map[string]*State{}, autoInvs: map[string][]autoChk{}, rangeOf: map[*ssa.Range]Val{}, strSeen: map[string]bool{}}
+		ghost: map[string]Term{}, safetyOn: true, loopPre: map[string]*State{}, autoInvs: map[string][]autoChk{}, rangeOf: map[*ssa.Range]Val{}, strSeen: map[string]bool{}, needs: map[int][]string{}, siteDeps: map[string][]int{}}
 }
 
 func (e *Engine) note(format string, args ...interface{}) {
@@ -124,7 +131,50 @@ func (e *Engine) define(prefix string, t Term) Term {
 	}
 	c := e.fresh(prefix, t.Sort)
 	e.assumes = append(e.assumes, Eq(c, t))
+	if ds := e.sitesIn(t.S); len(ds) > 0 {
+		e.siteDeps[c.S] = ds
+	}
 	return c
+}
+
+var siteRe = regexp.MustCompile(`\(\+ alloc0 (\d+)\)`)
+var tokRe = regexp.MustCompile(`[A-Za-z_][A-Za-z0-9_.!@$]*|\|[^|]*\|`)
+
+// sitesIn: local allocation sites a term may denote (directly or through defined constants).
+func (e *Engine) sitesIn(s string) []int {
+	seen := map[int]bool{}
+	var out []int
+	for _, m := range siteRe.FindAllStringSubmatch(s, -1) {
+		var k int
+		fmt.Sscan(m[1], &k)
+		if !seen[k] {
+			seen[k] = true
+			out = append(out, k)
+		}
+	}
+	if len(e.siteDeps) > 0 {
+		for _, tok := range tokRe.FindAllString(s, -1) {
+			for _, k := range e.siteDeps[tok] {
+				if !seen[k] {
+					seen[k] = true
+					out = append(out, k)
+				}
+			}
+		}
+	}
+	return out
+}
+
+// expose marks the allocation sites a value may refer to as visible to the outside world.
+func (e *Engine) expose(ts []Term) {
+	for _, t := range ts {
+		if t.Sort != SInt {
+			continue
+		}
+		for _, k := range e.sitesIn(t.S) {
+			e.reified[k] = true
+		}
+	}
 }
 
 // strTerm registers a string-sorted term and instantiates the string axioms for it
@@ -134,8 +184,33 @@ func (e *Engine) strTerm(t Term) Term {
 		return t
 	}
 	e.strSeen[t.S] = true
-	e.assumes = append(e.assumes, T(SBool, "(and (>= (strlen %s) 0) (=> (= (strlen %s) 0) (= %s str_empty)))", t.S, t.S, t.S))
+	e.assumes = append(e.assumes, T(SBool, "(and (>= (strlen %s) 0) (<= (strlen %s) 4611686018427387904) (=> (= (strlen %s) 0) (= %s str_empty)))", t.S, t.S, t.S, t.S))
 	return t
+}
+
+// assumeIfRelevant adds an assumption that is only emitted into queries mentioning one of the symbols.
+func (e *Engine) assumeIfRelevant(t Term, symbols []string) {
+	if len(symbols) == 0 {
+		e.assumes = append(e.assumes, t)
+		return
+	}
+	e.needs[len(e.assumes)] = symbols
+	e.assumes = append(e.assumes, t)
+}
+
+var symRe = regexp.MustCompile(`\|?(spec\.[A-Za-z0-9_]+|str_fold|str_lower|str_hasprefix|G\.[A-Za-z0-9_.$]+)\|?`)
+
+// symbolsOf: uninterpreted functions and global components a formula talks about.
+func symbolsOf(t Term) []string {
+	seen := map[string]bool{}
+	var out []string
+	for _, m := range symRe.FindAllStringSubmatch(t.S, -1) {
+		if !seen[m[1]] {
+			seen[m[1]] = true
+			out = append(out, m[1])
+		}
+	}
+	return out
 }
 
 func (e *Engine) assume(reach, t Term) {
@@ -215,8 +290,12 @@ func (e *Engine) safety(kind, what string, reach, cond Term) {
 	e.oblige(kind, fmt.Sprintf("%s#%d", key, e.kindOrd[key]), kind+" check at "+what, reach, cond, nil)
 }
 
-// BuildQuery renders the SMT-LIB text of an obligation.
-func (e *Engine) BuildQuery(o *Obligation) string {
+// BuildQuery renders the SMT-LIB text of an obligation. With groundOnly, quantified assumptions are
+// dropped (used only to retry cover queries that time out: fewer constraints can only make "sat" easier,
+// so an "unsat" answer still proves the path inconsistent).
+func (e *Engine) BuildQuery(o *Obligation) string { return e.buildQuery(o, false) }
+
+func (e *Engine) buildQuery(o *Obligation, groundOnly bool) string {
 	var b strings.Builder
 	b.WriteString("(set-option :produce-models true)\n(set-logic ALL)\n")
 	b.WriteString(preludeInt)
@@ -235,6 +314,8 @@ func (e *Engine) BuildQuery(o *Obligation) string {
 		for s2, n2 := range e.strlits {
 			if s != s2 && strings.HasPrefix(s, s2) {
 				b.WriteString(fmt.Sprintf("(assert (str_hasprefix %s %s))\n", n, n2))
+			} else if s != s2 {
+				b.WriteString(fmt.Sprintf("(assert (not (str_hasprefix %s %s)))\n", n, n2))
 			}
 		}
 		// lower-casing of literals
@@ -248,15 +329,42 @@ func (e *Engine) BuildQuery(o *Obligation) string {
 		b.WriteString(d)
 		b.WriteByte('\n')
 	}
-	for _, a := range e.assumes[:o.NAssume] {
-		b.WriteString("(assert " + a.S + ")\n")
+	// unconditional part first; axioms / global invariants only when something they talk about occurs
+	var body strings.Builder
+	var cond []int
+	for i, a := range e.assumes[:o.NAssume] {
+		if groundOnly && strings.Contains(a.S, "(forall ") {
+			continue
+		}
+		if _, c := e.needs[i]; c {
+			cond = append(cond, i)
+			continue
+		}
+		body.WriteString("(assert " + a.S + ")\n")
 	}
-	b.WriteString("(assert " + o.Reach.S + ")\n")
+	body.WriteString("(assert " + o.Reach.S + ")\n")
 	if o.Expect == "sat" {
-		b.WriteString("(assert " + o.Cond.S + ")\n")
+		body.WriteString("(assert " + o.Cond.S + ")\n")
 	} else {
-		b.WriteString("(assert (not " + o.Cond.S + "))\n")
+		body.WriteString("(assert (not " + o.Cond.S + "))\n")
 	}
+	included := map[int]bool{}
+	for round := 0; round < 3; round++ {
+		txt := body.String()
+		for _, i := range cond {
+			if included[i] {
+				continue
+			}
+			for _, sym := range e.needs[i] {
+				if strings.Contains(txt, sym) {
+					included[i] = true
+					body.WriteString("(assert " + e.assumes[i].S + ")\n")
+					break
+				}
+			}
+		}
+	}
+	b.WriteString(body.String())
 	b.WriteString("(check-sat)\n")
 	w := append([]string{}, e.watch...)
 	w = append(w, o.Watch...)
@@ -421,18 +529,16 @@ func (e *Engine) newSite(t types.Type) (int, Term) {
 // outsideRef: a reference obtained from outside (parameter, heap load, call result) is none of the
 // local allocation sites whose reference has not left this function.
 func (e *Engine) outsideRef(reach Term, r Term) {
-	if e.sites == 0 {
-		return
-	}
-	var cs []Term
+	// numbering convention: objects existing at entry are <= alloc0, this activation's allocation sites
+	// are alloc0+1 .. alloc0+10^6, objects allocated by callees (or by earlier loop iterations) lie above.
+	e.declare("alloc0", SInt)
+	cs := []Term{Bin(SBool, "<=", r, Term{"alloc0", SInt}), T(SBool, "(> %s (+ alloc0 1000000))", r)}
 	for k := 1; k <= e.sites; k++ {
-		if !e.reified[k] {
-			cs = append(cs, Not(Eq(r, e.siteRef(k))))
+		if e.reified[k] {
+			cs = append(cs, Eq(r, e.siteRef(k)))
 		}
 	}
-	if len(cs) > 0 {
-		e.assume(reach, And(cs...))
-	}
+	e.assume(reach, Or(cs...))
 }
 
 // mergeStates joins states along edges with the given (mutually exclusive) conditions.
@@ -639,6 +745,7 @@ func (e *Engine) store(st *State, a *Addr, v Val) {
 		copy(c[a.Off:a.Off+n], v.L)
 		st.cells[a.Cell] = c
 	case aHeap:
+		e.expose(v.L)
 		root := Layout(a.Root)
 		for i := 0; i < n; i++ {
 			lf := root[a.Off+i]
@@ -647,6 +754,7 @@ func (e *Engine) store(st *State, a *Addr, v Val) {
 			st.setComp(name, e.define("h", Store(arr, a.Ref, v.L[i])))
 		}
 	case aElem:
+		e.expose(v.L)
 		root := Layout(a.Root)
 		for i := 0; i < n; i++ {
 			lf := root[a.Off+i]
@@ -656,6 +764,7 @@ func (e *Engine) store(st *State, a *Addr, v Val) {
 			st.setComp(name, e.define("h", Store(arr, a.Ref, Store(inner, a.Idx, v.L[i]))))
 		}
 	case aGlobal:
+		e.expose(v.L)
 		root := Layout(a.Root)
 		for i := 0; i < n; i++ {
 			lf := root[a.Off+i]
@@ -706,6 +815,9 @@ func (e *Engine) flat(st *State, reach Term, v Val) []Term {
 	if v.Addr != nil {
 		return []Term{e.reify(st, reach, v)}
 	}
+	if e.exposing {
+		e.expose(v.L)
+	}
 	if v.Clo != nil && len(v.L) == 0 {
 		return []Term{e.closureRef(v.Clo)}
 	}
@@ -740,7 +852,7 @@ func (e *Engine) assumeWF(reach Term, v Val) {
 			e.assume(reach, inRange(l.T, x))
 		case kRef, kSlArr, kIfRef, kIfTag:
 			e.assume(reach, Bin(SBool, ">=", x, IntLit(0)))
-			if l.Kind != kIfTag {
+			if l.Kind != kIfTag && !e.noOutside {
 				e.outsideRef(reach, x)
 			}
 		case kSlLen:
